@@ -91,7 +91,9 @@ F3 == {File1(<<Text(ps)>>) : ps \in {x \in TextSeqs : GoodText(x)}}
 
 -----------------------------------------------------------------------------
 (* F4: if-chains *)
-Conds == {EV(EA), EV(EB), EV(Un("!", EA)), EV(Mem(Id("o"), "p")), SV("yes"), SV(""), EV(Bin("===", EA, Lit("1")))}
+Conds == {EV(EA), EV(EB), EV(Un("!", EA)), EV(Mem(Id("o"), "p")), SV("yes"), SV(""), EV(Bin("===", EA, Lit("1"))),
+          (* conditions whose emitted code is itself of the lowest precedence levels *)
+          EV(Bin("??", EA, EB)), EV(Bin("||", EA, EB)), EV(Bin("&&", EB, EA)), EV(Cond(EA, EB, Lit("0")))}
 Br(c, k) == [c |-> c, ch |-> <<Elem(k, <<>>, <<Text(<<P(EA)>>)>>)>>]
 ElseCh == <<Elem("e", <<>>, <<>>)>>
 F4 == {File1(<<If(<<Br(c, "x")>>, FALSE, <<>>)>>) : c \in Conds}
